@@ -22,7 +22,16 @@ def rankOf : Nat → Nat
 def showDisp (d : Disp) : String :=
   let k := match d.kind with
     | .dfl => "d" | .ign => "i" | .handler h => "h" ++ toString h | .tbox => "T"
+  -- round 6: the flags / mask of tbox's OWN handler are model-internal (`M own=`), the application's dispositions are shown whole
+  if d.kind = .tbox then k else
   k ++ ":" ++ (if d.siginfo then "1" else "0") ++ ":" ++ toString d.flags ++ ":" ++ toString d.mask
+
+/-- `M own=`: SA_SIGINFO, the other flags and the mask of tbox's handler, per signal it is installed for -/
+def showOwn (os : Nat → Disp) : String :=
+  let l := (List.range 7).filterMap fun g =>
+    let d := os g
+    if d.kind = .tbox then some (toString g ++ ":" ++ (if d.siginfo then "1" else "0") ++ ":" ++ toString d.flags ++ ":" ++ toString d.mask) else none
+  if l.isEmpty then "-" else ",".intercalate l
 
 def bitsOf (s : State) : String :=
   if s.nEv = 0 then "-" else
@@ -68,6 +77,7 @@ def parseAct (w : String) : Option Act :=
   | 'e' :: rest => (idx? (String.ofList rest) 64).map .enable
   | 'd' :: rest => (idx? (String.ofList rest) 64).map .disable
   | 'x' :: rest => (idx? (String.ofList rest) 64).map .destroy
+  | 'p' :: rest => (idx? (String.ofList rest) 64).map .enableP
   | _ => none
 
 def parseScript (w : String) (self : Nat) : Option (List Act) :=
@@ -92,6 +102,7 @@ def parseOp (s : State) (ord : List Nat) (ws : List String) : Option Op :=
       let sg ← parseSigs sg
       if m == "o" then pure (.init e sg true) else if m == "p" then pure (.init e sg false) else none
   | ["en", e] => do pure (.enable (← idx? e s.nEv))
+  | ["enp", e] => do pure (.enableP (← idx? e s.nEv))
   | ["dis", e] => do pure (.disable (← idx? e s.nEv))
   | ["del", e] => do pure (.destroy (← idx? e s.nEv))
   | ["sa", g, k, f, m] => do
@@ -173,6 +184,9 @@ def sysEnable (s : State) (e : Nat) : List String :=
   if !v.alive || !v.inited then [] else
   let r := subscribeAllF s v.loop e v.sigs
   sysSubAll s v.loop e v.sigs ++ (if !r.2.2 && !v.enabled then sysUnsubAll r.1 v.loop e r.2.1 else [])
+
+/-- `enable()` with `pipe2` failing: the one `pipe2` call (x = it fails) and nothing else, or — no pipe needed — as `enable()` -/
+def sysEnableP (s : State) (e : Nat) : List String := if needsPipe s e then ["Px"] else sysEnable s e
 
 def showSys (t : List String) : String := if t.isEmpty then "-" else ",".intercalate t
 
@@ -269,7 +283,8 @@ def tagsOf (s s' : State) (op : Op) : List String :=
       dc ++ (if (s.pipe l).isEmpty then ["pass-empty"] else
         (if scripted then ["cb-script"] else []) ++
         (if (s'.cbs.take n).any (fun c => !(s.evs c.ev).script.all (fun a => match a with
-            | .enable j | .disable j | .destroy j | .init j _ _ => (s.evs j).loop == l)) then ["cb-cross-loop"] else []) ++
+            | .enable j | .disable j | .destroy j | .init j _ _ | .enableP j => (s.evs j).loop == l)) then ["cb-cross-loop"] else []) ++
+        (if (s'.cbs.take n).any (fun c => (s.evs c.ev).script.any (fun a => match a with | .enableP _ => true | _ => false)) then ["cb-enp"] else []) ++
         (if (s.pipe l).length ≥ capOf s then ["pass-full-pipe"] else []) ++
         (if n < live then ["cb-skipped-or-lost"] else []) ++ (if n > live then ["cb-extra"] else []) ++
         (if (s.pipe l).length ≥ 2 then ["pass-items>1"] else []) ++
@@ -293,6 +308,10 @@ def tagsOf (s s' : State) (op : Op) : List String :=
       (if normMask d.mask != d.mask then ["sa-mask-killstop"] else [])
   | .init e _ _ => dc ++ (if (s.evs e).enabled then ["reinit-enabled"] else if (s.evs e).inited then ["reinit"] else ["init"])
   | .newEv _ sc => if sc.isEmpty then [] else ["new-script"]
+  | .enableP e =>
+      if needsPipe s e then ["enp-pipe2-fails"] ++ (if (s.evs e).sigs.length > 1 then ["enp-multi"] else []) ++
+        (if (List.range nSig).any fun g => (s.os g).kind = .tbox then ["enp-others-installed"] else [])
+      else dc ++ ["enp-no-pipe2-call"] ++ (if (s.evs e).alive && (s.evs e).inited && !(s.evs e).enabled && (enable repaired s e).2 then ["enp-joins-open-pipe"] else [])
 
 /-- expected output of one op line on the model (B tag line first, if any) -/
 def stepLine (s : State) (line : String) (ord : List Nat) : State × List String :=
@@ -305,7 +324,20 @@ def stepLine (s : State) (line : String) (ord : List Nat) : State × List String
     -- not touch the signal bookkeeping: no system call, every disposition and isEnabled() as before.  Terminal: the harness
     -- accepts only deliveries afterwards (the orphaned events must not be touched: their loop pointer dangles).
     match idx? l nLoop with
-    | some l => (s, ["B lost" ++ (if s.hasPipe l then " lost-subscribed" else ""), "P lost " ++ showState s, "M sys=-"])
+    | some l => (s, ["B lost" ++ (if s.hasPipe l then " lost-subscribed" else ""), "P lost " ++ showState s, "M sys=-", "M own=" ++ showOwn s.os])
+    | none => (s, ["bad-op"])
+  | ["blk", g] =>
+    -- round 6: the delivery goes to a thread blocked in read(): the same delivery as `raise g`, plus what the blocked call sees
+    match idx? g nShow with
+    | some g =>
+      if !sigValid g then (s, ["bad-op"]) else
+      let s' := normPipe (raise s g).1
+      let o := match (raise s g).2 with | .killed => "killed" | .ignored => "ignored" | .handled => "handled"
+      let b := match blockedCall s g with | .killed => "killed" | .undisturbed => "undisturbed" | .restarted => "restarted" | .eintr => "eintr"
+      let saved := (s.os g).kind = .tbox && (ctxOf s g).old.restart && (match (ctxOf s g).old.kind with | .handler _ => true | _ => false)
+      (s', ["B blk blk-" ++ b ++ (if saved then " blk-saved-restart-lost" else ""),
+            "P raise " ++ o ++ " calls=" ++ showCalls ((s'.calls.take (s'.calls.length - s.calls.length)).reverse) ++ " " ++ showState s',
+            "M wr=" ++ showWr s g [], "M env=" ++ showEnv s g, "M blk=" ++ b])
     | none => (s, ["bad-op"])
   | ["burst", g, n] =>
     -- n deliveries in a row (n `raise` ops); the writes of the first and of the last one are shown
@@ -336,6 +368,7 @@ def stepLine (s : State) (line : String) (ord : List Nat) : State × List String
         | .newEv _ _ => "ret=1"
         | .init e sg o => "ret=" ++ (if (initEv repaired s e sg o).2 then "1" else "0")
         | .enable e => "ret=" ++ (if (enable repaired s e).2 then "1" else "0")
+        | .enableP e => "ret=" ++ (if (enableP repaired s e).2 then "1" else "0")
         | .disable e => "ret=" ++ (if (disable s e).2 then "1" else "0")
         | .destroy e => "ret=" ++ (if (destroy s e).2 then "1" else "0")
         | .setDisp g d => "ret=" ++ (if (setDisp s g d).2 then "1" else "0")
@@ -346,12 +379,13 @@ def stepLine (s : State) (line : String) (ord : List Nat) : State × List String
             "pass ord=" ++ showOrd ord ++ " cbs=" ++ showCbs ((s'.cbs.take (s'.cbs.length - s.cbs.length)).reverse) ++ " thr=ok"
         | .setCap _ => "cap"
       let m := match op with
-        | .init e _ _ => ["M sys=" ++ showSys (sysDisable s e)]
-        | .enable e => ["M sys=" ++ showSys (sysEnable s e)]
-        | .disable e | .destroy e => ["M sys=" ++ showSys (sysDisable s e)]
+        | .init e _ _ => ["M sys=" ++ showSys (sysDisable s e), "M own=" ++ showOwn s'.os]
+        | .enable e => ["M sys=" ++ showSys (sysEnable s e), "M own=" ++ showOwn s'.os]
+        | .enableP e => ["M sys=" ++ showSys (sysEnableP s e), "M own=" ++ showOwn s'.os]
+        | .disable e | .destroy e => ["M sys=" ++ showSys (sysDisable s e), "M own=" ++ showOwn s'.os]
         | .raise g => ["M wr=" ++ showWr s g [], "M env=" ++ showEnv s g]
         | .raiseW g wf => ["M wr=" ++ showWr s g wf, "M env=" ++ showEnv s g]
-        | .pass _ _ | .passC _ _ _ => ["M cs=ok"]
+        | .pass _ _ | .passC _ _ _ => ["M cs=ok", "M own=" ++ showOwn s'.os]
         | _ => []
       (s', b ++ ["P " ++ body ++ " " ++ showState s'] ++ m)
 
@@ -375,7 +409,7 @@ def stepOp (a : TAcc) (line : String) : TAcc :=
   let a := { a with nops := a.nops + 1 }
   let ord := match a.tl with | l :: _ => (ordOfImplLine l).eraseDups | [] => []
   let w0 := (words line).headD ""
-  let (s', outs) := if a.lost && !(w0 == "raise" || w0 == "raisew" || w0 == "burst") then (a.s, ["bad-op"]) else stepLine a.s line ord
+  let (s', outs) := if a.lost && !(w0 == "raise" || w0 == "raisew" || w0 == "burst" || w0 == "blk") then (a.s, ["bad-op"]) else stepLine a.s line ord
   let a := { a with lost := a.lost || (w0 == "lost" && outs != ["bad-op"]) }
   let tags := (outs.filter (·.startsWith "B ")).flatMap fun l => words (l.drop 2).toString
   let want := outs.filter (fun l => !l.startsWith "B ")
